@@ -123,6 +123,11 @@ Definition aexit_ctl (c : ctl) : bool :=
 Lemma incs_ctl s0 t : k_ctl (tasks (incs s0 t) t) = k_ctl (tasks s0 t).
 Proof. rewrite incs_task_same. reflexivity. Qed.
 
+(* what an interrupted start() re-raises when it does not join the child: the exception the child handed to the
+   start future, if any, takes precedence over the interruption (F20) *)
+Definition start_exc (s : st) (f : fid) (e : exn) : exn :=
+  match f_st (futs s f) with FExc e' => e' | _ => e end.
+
 Lemma resume_unfold s0 t fo :
   resume s0 t fo =
   let s := incs s0 t in let inc := snd (incoming s0 t fo) in
@@ -194,7 +199,7 @@ Lemma resume_unfold s0 t fo :
             let s3 := fst (scope_enter s2 c t) in
             let '(s4, wf) := event_wait s3 t (k_hevent (tasks s3 child)) in
             blocked (set_ctl s4 t (CStartJoin child c e wf))
-          else ret_to_puppet s t (RExc e)
+          else ret_to_puppet s t (RExc (start_exc s f e))
       end
   | CStartJoin child c e wf =>
       let s1 := event_unwait s (k_hevent (tasks s child)) wf in
@@ -212,7 +217,11 @@ Lemma resume_unfold s0 t fo :
 Proof.
   unfold resume. destruct (incoming s0 t fo) as [s inc] eqn:Ei.
   assert (Es : s = incs s0 t) by (rewrite <- (incoming_fst s0 t fo), Ei; reflexivity).
-  cbn [snd]. subst s. cbn zeta. rewrite incs_ctl. reflexivity.
+  cbn [snd]. subst s. cbn zeta. rewrite incs_ctl.
+  destruct (k_ctl (tasks s0 t)) as [| |k|f tm|g ws exc|g c exc|g child f|child c e wf|h wf|]; try reflexivity.
+  destruct inc as [e|]; [|reflexivity].
+  destruct (handle_pending (incs s0 t) child); [reflexivity|].
+  unfold start_exc. destruct (f_st (futs (incs s0 t) f)); reflexivity.
 Qed.
 
 Lemma groups_event_unwait s e fo : groups (event_unwait s e fo) = groups s.
